@@ -428,7 +428,7 @@ def judge_section(prop, mg, s):
 
 
 # ------------------------------------------------------------------ main
-def run(prop, tier, seed, mg, log, build, run_shards, merge, rundir, extra, classify_build_failure=None):
+def run(prop, tier, seed, mg, log, build, run_shards, merge, rundir, extra, classify_build_failure=None, only_flavours=None):
     import props as P
     spec = P.PROPS[prop]
     timeout = 1500 if tier == 'quick' else 5400
@@ -440,6 +440,8 @@ def run(prop, tier, seed, mg, log, build, run_shards, merge, rundir, extra, clas
         flavours += ['fastrel', 'asan'] if prop != 'C05' else ['fastrel']
     if prop == 'C09' and tier == 'thorough':
         flavours += ['asanleak']
+    if only_flavours:
+        flavours = [f for f in flavours if f in only_flavours] or flavours[:1]
     binary = None
     for fl in flavours:
         b = build(fl, log)
